@@ -30,3 +30,47 @@ def cellVoxels (c : (Nat × Nat) × (Nat × Nat) × (Nat × Nat)) : Nat :=
   (c.1.2 - c.1.1) * ((c.2.1.2 - c.2.1.1) * (c.2.2.2 - c.2.2.1))
 
 end NgVerif.Tiling
+
+/-! ### chunk contents of `volume_reader.volume_to_precomputed` -/
+namespace NgVerif.Volume
+
+abbrev Cell := (Nat × Nat) × (Nat × Nat) × (Nat × Nat)
+
+/-- `chunk = np.moveaxis(volume[x0:x1, y0:y1, z0:z1, :], (0, 1, 2, 3), (3, 2, 1, 0))`, flattened in the
+    C order of its `(C, Z, Y, X)` shape; a 3-D volume is the case `C = 1` (the code adds the axis) -/
+def chunkOf {α} (vol : Nat → Nat → Nat → Nat → α) (C : Nat) (cell : Cell) : List α :=
+  (List.range C).flatMap fun c =>
+    (List.range (cell.2.2.2 - cell.2.2.1)).flatMap fun dz =>
+      (List.range (cell.2.1.2 - cell.2.1.1)).flatMap fun dy =>
+        (List.range (cell.1.2 - cell.1.1)).map fun dx =>
+          vol (cell.1.1 + dx) (cell.2.1.1 + dy) (cell.2.2.1 + dz) c
+
+/-- every `write_chunk` call of one conversion: the cell and the flattened chunk -/
+def convert {α} (vol : Nat → Nat → Nat → Nat → α) (C : Nat) (size cs : Nat × Nat × Nat) : List (Cell × List α) :=
+  (Tiling.volumeLoop size cs).map fun cell => (cell, chunkOf vol C cell)
+
+def inCellB (c : Cell) (x y z : Nat) : Bool :=
+  (decide (c.1.1 ≤ x) && decide (x < c.1.2)) && ((decide (c.2.1.1 ≤ y) && decide (y < c.2.1.2)) &&
+    (decide (c.2.2.1 ≤ z) && decide (z < c.2.2.2)))
+
+/-- reading voxel `(x, y, z)` of channel `c` back from a set of stored chunks, as any reader of the
+    precomputed format does: the chunk whose box contains the position, C-order index within its
+    `(C, Z, Y, X)` array -/
+def readVoxel {α} (chunks : List (Cell × List α)) (x y z c : Nat) : Option α :=
+  match chunks.find? (fun ch => inCellB ch.1 x y z) with
+  | none => none
+  | some (cell, data) =>
+    let X := cell.1.2 - cell.1.1
+    let Y := cell.2.1.2 - cell.2.1.1
+    let Z := cell.2.2.2 - cell.2.2.1
+    data[((c * Z + (z - cell.2.2.1)) * Y + (y - cell.2.1.1)) * X + (x - cell.1.1)]?
+
+/-- `nibabel_image_to_precomputed` with `--input-min` / `--input-max`: the array proxy's slope and intercept
+    are REWRITTEN so that nibabel's own scaling `raw * slope + inter` performs header scaling and min/max
+    rescaling at once (polymorphic in the scalar type; the driver runs it over exact rationals) -/
+def rewriteScaling {α} [Add α] [Sub α] [Mul α] [Div α] (slope inter imin imax omin omax : α) : α × α :=
+  let ps := (omax - omin) / (imax - imin)
+  let pi := omin - imin * ps
+  (slope * ps, inter * ps + pi)
+
+end NgVerif.Volume
